@@ -42,6 +42,15 @@ type Case struct {
 
 const maxDecodeDepth = 32
 
+// short renders a policy for a failure message (the replay file holds the full case).
+func short(n *Node) string {
+	s := n.String()
+	if len(s) > 1200 {
+		return s[:1200] + "...(truncated, see replay)"
+	}
+	return s
+}
+
 func witnessText(c *Case) string {
 	var sb strings.Builder
 	for _, s := range c.Sigs {
@@ -130,7 +139,7 @@ func checkCase(c Case) error {
 			}
 		}
 		return stats.Failf(key, "Verify accepted=%v, reference accepted=%v: policy %s height=%d time=%d sighash#%d witnesses %s [%s]",
-			got, want, root, c.H, c.T, c.SH, witnessText(&c), c.Tag)
+			got, want, short(root), c.H, c.T, c.SH, witnessText(&c), c.Tag)
 	}
 
 	// ---- address commitment, wire form
@@ -153,15 +162,15 @@ func checkCase(c Case) error {
 			m2 := addrMemo{}
 			p2 := build(&cl, true, m2)
 			if verify(p2, &c, msg, sigs, pres) {
-				return stats.Failf("C14/opacified-accepted", "accepted after sub-policy at %v was made opaque (same witnesses): %s -> %s", sp.path, root, &cl)
+				return stats.Failf("C14/opacified-accepted", "accepted after sub-policy at %v was made opaque (same witnesses): %s -> %s", sp.path, short(root), short(&cl))
 			}
 			s2 := append(append([]types.Signature{}, sigs[:sp.s0]...), sigs[sp.s1:]...)
 			q2 := append(append([][32]byte{}, pres[:sp.p0]...), pres[sp.p1:]...)
 			if verify(p2, &c, msg, s2, q2) {
-				return stats.Failf("C14/opacified-accepted", "accepted after sub-policy at %v was made opaque (its witnesses removed): %s -> %s", sp.path, root, &cl)
+				return stats.Failf("C14/opacified-accepted", "accepted after sub-policy at %v was made opaque (its witnesses removed): %s -> %s", sp.path, short(root), short(&cl))
 			}
 			if p2.Address() != presented.Address() && !anyTooWide(root) {
-				return stats.Failf("C14/address", "address changed after opacifying %v of %s", sp.path, root)
+				return stats.Failf("C14/address", "address changed after opacifying %v of %s", sp.path, short(root))
 			}
 			rec.Label("meta:opacified-branch-rejected")
 		}
@@ -224,10 +233,10 @@ func checkAddress(c *Case, root *Node, presented types.SpendPolicy, memo addrMem
 	ref := refAddress(root, memo)
 	orig := build(root, false, nil)
 	if a := orig.Address(); a != ref {
-		return stats.Failf("C14/address", "Address(%s) = %v, reference %v", root, a, ref)
+		return stats.Failf("C14/address", "Address(%s) = %v, reference %v", short(root), a, ref)
 	}
 	if a := presented.Address(); a != ref {
-		return stats.Failf("C14/address", "Address of partly opaque form %v != reference %v of %s", a, ref, root)
+		return stats.Failf("C14/address", "Address of partly opaque form %v != reference %v of %s", a, ref, short(root))
 	}
 	if len(c.Alt) > 0 {
 		cl := cloneNode(root)
@@ -246,7 +255,7 @@ func checkAddress(c *Case, root *Node, presented types.SpendPolicy, memo addrMem
 			}
 		}
 		if a := build(&cl, true, addrMemo{}).Address(); a != ref {
-			return stats.Failf("C14/address", "Address after opacifying %v = %v, reference %v; policy %s", c.Alt, a, ref, root)
+			return stats.Failf("C14/address", "Address after opacifying %v = %v, reference %v; policy %s", c.Alt, a, ref, short(root))
 		}
 		rec.Label("addr:alt-opacified")
 	}
@@ -257,7 +266,7 @@ func checkAddress(c *Case, root *Node, presented types.SpendPolicy, memo addrMem
 			return stats.Failf("C14/address", "PolicyOpaque changed an opaque policy")
 		}
 	} else if op.Type != types.PolicyTypeOpaque(ref) {
-		return stats.Failf("C14/address", "PolicyOpaque(%s) = %v, want opaque(%v)", root, op, ref)
+		return stats.Failf("C14/address", "PolicyOpaque(%s) = %v, want opaque(%v)", short(root), op, ref)
 	}
 	switch root.K {
 	case "pk":
@@ -267,7 +276,7 @@ func checkAddress(c *Case, root *Node, presented types.SpendPolicy, memo addrMem
 	case "uc":
 		uc := types.UnlockConditions(orig.Type.(types.PolicyTypeUnlockConditions))
 		if a := uc.UnlockHash(); a != ref {
-			return stats.Failf("C14/address", "UnlockHash(%s) = %v, reference %v", root, a, ref)
+			return stats.Failf("C14/address", "UnlockHash(%s) = %v, reference %v", short(root), a, ref)
 		}
 		if root.U == 0 && root.Req == 1 && len(root.Keys) == 1 && root.Keys[0].A == "ed" {
 			if a := types.StandardUnlockHash(pubKey(root.Keys[0].I)); a != ref {
@@ -279,7 +288,7 @@ func checkAddress(c *Case, root *Node, presented types.SpendPolicy, memo addrMem
 	// wire form of the presented policy
 	want := refWire([]byte{1}, root, true, memo)
 	if got := libWire(presented); !bytes.Equal(got, want) {
-		return stats.Failf("C14/wire", "encoding of %s differs from reference: %x vs %x", root, got, want)
+		return stats.Failf("C14/wire", "encoding of %s differs from reference: %x vs %x", short(root), got, want)
 	}
 	depth, _ := presentedDepth(root, 0)
 	var dec types.SpendPolicy
@@ -289,10 +298,10 @@ func checkAddress(c *Case, root *Node, presented types.SpendPolicy, memo addrMem
 		return stats.Failf("C14/decode-depth", "decoding a policy of nesting depth %d: err=%v", depth, err)
 	} else if err == nil {
 		if !bytes.Equal(libWire(dec), want) {
-			return stats.Failf("C14/wire", "decode/encode of %s is not the identity", root)
+			return stats.Failf("C14/wire", "decode/encode of %s is not the identity", short(root))
 		}
 		if dec.Address() != ref {
-			return stats.Failf("C14/address", "decoded policy has a different address: %s", root)
+			return stats.Failf("C14/address", "decoded policy has a different address: %s", short(root))
 		}
 		rec.Label("wire:decoded")
 	} else {
@@ -328,7 +337,7 @@ func checkAddrSubsets(c AddrCase) error {
 		return stats.Failf("", "harness: too many nodes for the subset enumerator")
 	}
 	if a := build(&root, false, nil).Address(); a != ref {
-		return stats.Failf("C14/address", "Address(%s) = %v, reference %v", &root, a, ref)
+		return stats.Failf("C14/address", "Address(%s) = %v, reference %v", short(&root), a, ref)
 	}
 	memo := addrMemo{}
 	for mask := 0; mask < 1<<len(nodes); mask++ {
@@ -336,7 +345,7 @@ func checkAddrSubsets(c AddrCase) error {
 			n.Opq = mask>>i&1 == 1
 		}
 		if a := build(&root, true, memo).Address(); a != ref {
-			return stats.Failf("C14/address", "Address(%s) = %v, reference %v of the original", &root, a, ref)
+			return stats.Failf("C14/address", "Address(%s) = %v, reference %v of the original", short(&root), a, ref)
 		}
 	}
 	mixedDepth := false
